@@ -1143,6 +1143,9 @@ class WcParse(Generic[AnyStr]):
             elif c in SET_OPERATORS:
                 # Escape &, |, and ~ to avoid &&, ||, and ~~
                 value = '\\' + c
+            elif c == '#':
+                # Escape # so that literal text can never look like our internal `(?#)` marker
+                value = '\\' + c
             else:
                 # Anything else
                 value = c
